@@ -109,8 +109,9 @@ func errClass(err error) int {
 // ---------------------------------------------------------------- program interpreter
 
 type scriptReader struct {
-	chunks [][]byte
-	i      int
+	chunks  [][]byte
+	i       int
+	dataEOF bool // the last chunk comes together with io.EOF (as request bodies and decompressors do)
 }
 
 func (s *scriptReader) Read(p []byte) (int, error) {
@@ -125,6 +126,9 @@ func (s *scriptReader) Read(p []byte) (int, error) {
 		return n, nil
 	}
 	s.i++
+	if s.dataEOF && s.i == len(s.chunks) {
+		return copy(p, c), io.EOF
+	}
 	return copy(p, c), nil
 }
 
@@ -204,7 +208,7 @@ func runProg(c *router.Context, prog []opT, res *runRes, hk hook, nw []int) {
 		case "C":
 			cs := make([][]byte, len(op.Chunks))
 			copy(cs, op.Chunks)
-			n, err := io.Copy(w, &scriptReader{chunks: cs})
+			n, err := io.Copy(w, &scriptReader{chunks: cs, dataEOF: op.Key == "eof"})
 			res.Outs = append(res.Outs, outT{1, n, errClass(err)})
 		case "St":
 			c.Status(op.Code)
@@ -409,6 +413,7 @@ type respT struct {
 	Kind    string // R response, P handler saw a panic from the writer, E transport error (connection torn down)
 	Status  int
 	Hdr     [][2]string // sorted (key, values joined with \x00); Date and Content-Length dropped
+	Trailer [][2]string // header fields received after the body, same form
 	CE      string
 	Raw     []byte
 	Decoded []byte
@@ -663,6 +668,16 @@ func fetch(k *caseT, res *runRes, done chan struct{}, nw []int) respT {
 	for _, hk := range keys {
 		out.Hdr = append(out.Hdr, [2]string{hk, strings.Join(resp.Header[hk], "\x00")})
 	}
+	tkeys := make([]string, 0, len(resp.Trailer))
+	for tk, tv := range resp.Trailer {
+		if len(tv) > 0 {
+			tkeys = append(tkeys, tk)
+		}
+	}
+	sort.Strings(tkeys)
+	for _, tk := range tkeys {
+		out.Trailer = append(out.Trailer, [2]string{tk, strings.Join(resp.Trailer[tk], "\x00")})
+	}
 	out.CE = resp.Header.Get("Content-Encoding")
 	out.Decoded, out.DecOK = decodeBody(out.CE, raw)
 	return out
@@ -801,6 +816,15 @@ func writeResp(l *hx.Line, r respT) {
 			l.Str(v)
 		}
 	}
+	l.Nat(len(r.Trailer))
+	for _, kv := range r.Trailer {
+		vs := strings.Split(kv[1], "\x00")
+		l.Str(kv[0]).Nat(len(vs))
+		for _, v := range vs {
+			l.Str(v)
+		}
+	}
+	l.Bool(len(r.Raw) > 2048) // a codec parameter: did the encoder's output overflow net/http's buffer
 	if r.DecOK {
 		l.Tok("1").Tok(encBytes(r.Decoded))
 	} else {
